@@ -8,9 +8,10 @@ KNOWN = os.path.join(VERIF, "known_findings.json")
 
 
 class Obligation:
-    __slots__ = ("rule", "key", "ok", "msg", "sites", "config", "clause")
+    __slots__ = ("rule", "key", "ok", "msg", "sites", "config", "clause", "refs")
 
-    def __init__(self, rule, key, ok, msg, sites, config, clause):
+    def __init__(self, rule, key, ok, msg, sites, config, clause, refs=None):
+        self.refs = refs or []
         self.rule = rule
         self.key = key
         self.ok = ok
@@ -44,10 +45,13 @@ class Ctx:
     def ob(self, key, ok, msg, sites=()):
         """Record one obligation. `key` identifies the instance without line numbers."""
         ss = []
+        refs = []
         for s in sites:
             ss.append(s if isinstance(s, str) else s.describe() if hasattr(s, "describe") else str(s))
+            if hasattr(s, "key") and hasattr(s, "body"):
+                refs.append(s.key())
         full_key = "%s|%s" % (self.rule, key)
-        self._sink.append(Obligation(self.rule, full_key, bool(ok), msg, ss, self.config, self.clause))
+        self._sink.append(Obligation(self.rule, full_key, bool(ok), msg, ss, self.config, self.clause, refs))
         return bool(ok)
 
     def missing(self, what):
